@@ -28,8 +28,16 @@ type qEnv struct {
 // the transaction it queries in). Workers run one case at a time.
 var deferLoadQEnv bool
 
+// childQEnv makes newQEnv layer a plain child store ("things/kid") on the things store; every other thing is created
+// through it.
+var childQEnv bool
+
 func newQEnv(c *core.Ctx, r *core.Rand, maxThings int, small bool) (*qEnv, error) {
-	sc := schema.Build(qx.Defs())
+	defs := qx.Defs()
+	if childQEnv {
+		defs = append(defs, &schema.StoreDef{Type: qx.Things, Parent: qx.Things, ChildPath: []string{"kid"}, Fields: []schema.Field{{Name: "extra", Kind: schema.KStr}}})
+	}
+	sc := schema.Build(defs)
 	path := c.TempFile("q")
 	db, err := sc.OpenDb(path)
 	if err != nil {
@@ -160,7 +168,7 @@ func init() {
 		Rule: "generated datasets (0-12 things, owners, others; nulls p=0.25, empty sets, empty-string elements, case variants, shared prefixes, boundary integers, equal instants in different zones, typed and nested map values) x generated well-typed filters to depth 3 " +
 			"(scalar, path-prefixed, map-element, dotted single-valued, anyOf/allOf over direct and dotted sets, count over sets and sub-queries with skip/limit, isEmpty, bool symbols/constants, and/or/not; every operator incl. null tests; int<->float and number->string coercions), fully parenthesised. " +
 			"Every filter is answered by an independent reference evaluator and by the engine through QueryIds (canonical and re-spelled text), IterateIds, and QueryWithCursorC over an index-driven cursor provider (IteratorMatchingAnyOf); differing id sets, " +
-			"or a rejected / panicking well-typed filter, are violations. A fifth path evaluates the text with package ast alone over an in-memory ast.Symbols; every fourth case queries the owners / others stores (3-4 hop dotted paths); every fifth case writes the dataset and runs all its queries inside one write transaction (uncommitted data). Cases the statement leaves open are executed but not judged. non-trivial = distinct (filter, dataset) whose answer is neither empty nor everything",
+			"or a rejected / panicking well-typed filter, are violations. A fifth path evaluates the text with package ast alone over an in-memory ast.Symbols; every fourth case queries the owners / others stores (3-4 hop dotted paths); every fifth case writes the dataset and runs all its queries inside one write transaction (uncommitted data); every seventh queries through a plain child store layered on the things store (half of the things have child data). Cases the statement leaves open are executed but not judged. non-trivial = distinct (filter, dataset) whose answer is neither empty nor everything",
 		Assumptions: []string{"semantics not fixed by the statement are not judged: count/isEmpty over dotted paths, ordering of a string symbol against a number literal, map elements whose stored type differs from the literal's, icontains over non-ASCII, bare bool symbols holding null"},
 		Plan: func(tier core.Tier, seed int64) int {
 			if tier == core.Thorough {
@@ -188,9 +196,12 @@ func runC01(c *core.Ctx, idx int) {
 	r := c.Rand()
 	// every fifth case writes the dataset and runs the queries inside ONE write transaction (uncommitted data)
 	inTx := idx%5 == 4
-	deferLoadQEnv = inTx
+	// every seventh case queries through a child store layered on the things store: the answer is the matching entities
+	// that have child data
+	viaChild := idx%7 == 6 && idx%4 != 3
+	deferLoadQEnv, childQEnv = inTx, viaChild
 	env, err := newQEnv(c, r, 12, false)
-	deferLoadQEnv = false
+	deferLoadQEnv, childQEnv = false, false
 	if err != nil {
 		c.Violation("C01 setup", err.Error(), nil)
 		return
@@ -204,6 +215,17 @@ func runC01(c *core.Ctx, idx int) {
 	st := env.sc.St(store)
 	g := &qx.Gen{R: r, W: env.w, Store: store}
 	all := env.w.Ids(store)
+	if viaChild {
+		st = env.sc.St(qx.Things + "/kid")
+		var kids []string
+		for _, id := range all {
+			if qx.HashKid(id) {
+				kids = append(kids, id)
+			}
+		}
+		all = kids
+		c.Count("cases_through_a_child_store", 1)
+	}
 	nFilters := 60
 	mem := newMemWorld(env.w)
 	view := env.db.View
@@ -226,10 +248,23 @@ func runC01(c *core.Ctx, idx int) {
 				depth = 1 + r.Intn(3)
 			}
 			e := g.Expr(depth)
+			if thingIds := env.w.Ids(qx.Things); viaChild && k < len(thingIds) {
+				// lookups by id first: ids with and without child data
+				e = qx.Cmp{L: qx.LHS{Kind: "sym", Sym: "id"}, Op: core.Pick(r, []string{"=", "=", "in"}), R: []qx.Lit{qx.LStr(thingIds[k])}}
+			}
 			q := &qx.Query{Pred: e}
 			stream := q.Stream()
 			text := stream.Canon()
 			want, judged, why := env.w.Match(e, store)
+			if viaChild {
+				var kept []string
+				for _, id := range want {
+					if qx.HashKid(id) {
+						kept = append(kept, id)
+					}
+				}
+				want = kept
+			}
 			cells := map[string]bool{}
 			exprCells(e, env.w, store, cells)
 			info := map[string]any{"query": text, "world": describeWorld(env.w)}
@@ -314,7 +349,7 @@ func runC01(c *core.Ctx, idx int) {
 						want = inter
 						p2, _ := ast.Parse(st.Store, text)
 						run("QueryWithCursorC(IteratorMatchingAnyOf)", func() ([]string, error) {
-							ids, _, err := st.Store.QueryWithCursorC(tx, st.Store.IteratorMatchingAnyOf(st.SetIdx["nums"], vals), p2)
+							ids, _, err := st.Store.QueryWithCursorC(tx, st.Store.IteratorMatchingAnyOf(env.sc.St(store).SetIdx["nums"], vals), p2)
 							return ids, err
 						})
 						want = saved
